@@ -80,7 +80,7 @@ def run_streams(chk, binary, kinds, scale):
 def setup(chk):
     chk.trusted = common.BASE_TRUSTED + ac.TRUSTED
     chk.assumptions = ["effective task options: timeout > 0, retry > 0 (createTaskOptions ignores other values)",
-                       "handlers and the error callback do not panic; the pool is not garbage collected while tasks are pending (closeChan stays open)",
+                       "handlers and the error callback do not panic; closeChan stays open while tasks are pending (the model has no close event): since fix 83eb87d a task keeps its pool alive, which the multi-pool scripts exercise by dropping the pool handle with tasks outstanding and forcing GCs",
                        "instantaneous onError callback (the model's decision, onError and wg.Done are one step)"]
     chk.cov["rule"] = ("case = timed script (pool size 1-4; tasks with T in the ms range, R in 1..4, discardOnBusy on/off, error callback on/off; "
                        "per-attempt handler behaviour: duration T-1ns / T+1ns / around T/2, T/3, 2T / tiny, honours or ignores ctx, value/error) executed on the real pool "
@@ -89,7 +89,7 @@ def setup(chk):
                        "decisions, pickup time and max running handlers must agree. Streams: all-prompt (every handler honours ctx; the R*T bound monitor must hold outright), "
                        "non-cooperative (handlers ignoring ctx for 3-10 T; a bound excess of a prompt task counts as the known K1 class only if the model reproduces the release "
                        "instant with the dispatcher blocked in sendInnerCallback for exactly the implementation's lateness and the log shows all workers saturated with an overdue handler), "
-                       "bursts filling the queue (busy only if full). Streams multi-pool-option-lists: ONE process creates 2-3 pools one after the other (some later than the first Sends; at least one bigger than 1 and one of default size, any order) and sends bursts to all of them; every NewPool / Send gets a LITERAL option list (defaults mostly omitted, non-positive WithSize/WithRetry/WithTimeout values, repeated options, WithError(nil), WithContextBuilder(nil / builder tagged with an id)); the model computes each pool's and each task's configuration from its own list (apo_create / ato_create) and replays every pool's part of the log with it; the raw-log monitors use the configuration computed from the documented meaning of the options (ants_mp.eff_pool / eff_task), independent of the model; half of these scripts force runtime.GC() twice at 1-2 scripted instants while the pools are referenced and used afterwards; handler errors include (as a handler's OWN error before the deadline) the discard error obtained from another busy pool, context.DeadlineExceeded, context.Canceled and a wrapped discard error; one evaluation = one (script, pool). non-trivial = some task retried, failed, timed out or was discarded; distinct = distinct script")
+                       "bursts filling the queue (busy only if full). Streams multi-pool-option-lists: ONE process creates 2-3 pools one after the other (some later than the first Sends; at least one bigger than 1 and one of default size, any order) and sends bursts to all of them; every NewPool / Send gets a LITERAL option list (defaults mostly omitted, non-positive WithSize/WithRetry/WithTimeout values, repeated options, WithError(nil), WithContextBuilder(nil / builder tagged with an id)); the model computes each pool's and each task's configuration from its own list (apo_create / ato_create) and replays every pool's part of the log with it; the raw-log monitors use the configuration computed from the documented meaning of the options (ants_mp.eff_pool / eff_task), independent of the model; a third of these scripts drop the harness's only reference to one pool right after the last Send to it (tasks still queued or running) and force two GCs -- every accepted task must still complete with its handler's result; half of these scripts force runtime.GC() twice at 1-2 scripted instants while the pools are referenced and used afterwards; handler errors include (as a handler's OWN error before the deadline) the discard error obtained from another busy pool, context.DeadlineExceeded, context.Canceled and a wrapped discard error; one evaluation = one (script, pool). non-trivial = some task retried, failed, timed out or was discarded; distinct = distinct script")
 
 
 def run(chk):
